@@ -112,4 +112,4 @@ def shrink(c):
 def static_obligations(work, tier):
     """the predictor is re-translated from /repo's source on every run (integer/rational mode, mpmath calls read as exact arithmetic)
     and proved equal to the model the theorems are about"""
-    return common.kernel_obligations(work, ID, "plotink/ebb_calc.py", ['move_dist_t3', 'rate_t3'], mode="zq")
+    return common.kernel_obligations(work, ID, "plotink/ebb_calc.py", ['move_dist_t3', 'rate_t3'], mode="zq") + common.rounding_obligation(work, ID, (53, 103))
